@@ -50,12 +50,13 @@ def strategy(tier, phase):
 
     step = st.tuples(st.integers(0, len(PASSES) - 1), st.integers(0, 7)).map(list)
     if phase == "history":
-        # one pass object, two models: the model under test and - before it - a near twin of it (its tape with a few early
-        # positions changed, i.e. other functions / other function bodies under the same names).  What a pass remembers from
+        # one pass object, two models: the model under test and - before it - another generated model or a near twin of the
+        # model under test (its tape with a few early positions changed); either way other functions / other function
+        # bodies under the same names.  What a pass remembers from
         # the first model must not reach the second.
         edit = st.lists(st.tuples(st.integers(0, 12), st.integers(0, 2**16)).map(list), min_size=1, max_size=3)
         return st.fixed_dictionaries({"tape": rmodel.tape_strategy(), "steps": st.lists(step, min_size=1, max_size=1), "wrap": st.sampled_from([0, 0, 2]),
-                                      "gen": st.just(4), "prelude": st.just([]), "prelude_edit": edit})
+                                      "gen": st.just(4), "prelude": st.one_of(st.just([]), rmodel.tape_strategy(100), rmodel.tape_strategy(100)), "prelude_edit": edit})
     return st.fixed_dictionaries({"tape": rmodel.tape_strategy(), "steps": st.lists(step, min_size=1, max_size=6), "wrap": st.integers(0, 3),
                                   "gen": st.sampled_from([2, 3, 4, 4]), "prelude": st.one_of(st.just([]), st.just([]), rmodel.tape_strategy(100)),
                                   # ... or the prelude is the model under test with a few tape positions changed (the "same" model before an edit)
